@@ -34,6 +34,9 @@ def writer_args(r):
 
 
 def write_file(r, fmt, path, sc=None, pps=None, decimals=None):
+    """Writes the recipe. Optional recipe keys: "decoy" = [format, decimals] - another writer (for a tiny other
+    scenario) is constructed between the construction and the use of the writer under test; "reuse" = True - the
+    writer first writes the scenario part to a side file and then the full file (a reused writer object)."""
     sc = sc if sc is not None else gs.build_scenario(r)
     pps = pps if pps is not None else gs.build_pps(r["pps"])
     args, _ = writer_args(r)
@@ -41,7 +44,18 @@ def write_file(r, fmt, path, sc=None, pps=None, decimals=None):
     w = CommonRoadFileWriter(sc, pps, args["author"], args["affiliation"], args["source"], args["tags"],
                              decimal_precision=decimals if decimals is not None else r.get("decimals", 4),
                              file_format=ff)
-    w.write_to_file(path, OverwriteExistingFile.ALWAYS)
+    if r.get("decoy"):
+        from commonroad.planning.planning_problem import PlanningProblemSet
+        from commonroad.scenario.scenario import Scenario
+        dfmt, dd = r["decoy"]
+        CommonRoadFileWriter(Scenario(0.1), PlanningProblemSet(), "x", "y", "z", {Tag.URBAN}, decimal_precision=dd,
+                             file_format=FileFormat.XML if dfmt == "xml" else FileFormat.PROTOBUF)
+    import contextlib
+    import io
+    with contextlib.redirect_stdout(io.StringIO()):
+        if r.get("reuse"):
+            w.write_scenario_to_file(path + ".side", OverwriteExistingFile.ALWAYS)
+        w.write_to_file(path, OverwriteExistingFile.ALWAYS)
     return sc, pps
 
 
